@@ -238,26 +238,26 @@ namespace glm
 	GLM_FUNC_QUALIFIER float prevFloat(float x)
 	{
 #		if GLM_HAS_CXX11_STL
-			return std::nextafter(x, std::numeric_limits<float>::min());
+			return std::nextafter(x, -std::numeric_limits<float>::infinity());
 #		elif((GLM_COMPILER & GLM_COMPILER_VC) || ((GLM_COMPILER & GLM_COMPILER_INTEL) && (GLM_PLATFORM & GLM_PLATFORM_WINDOWS)))
-			return detail::nextafterf(x, FLT_MIN);
+			return detail::nextafterf(x, -std::numeric_limits<float>::infinity());
 #		elif(GLM_PLATFORM & GLM_PLATFORM_ANDROID)
-			return __builtin_nextafterf(x, FLT_MIN);
+			return __builtin_nextafterf(x, -std::numeric_limits<float>::infinity());
 #		else
-			return nextafterf(x, FLT_MIN);
+			return nextafterf(x, -std::numeric_limits<float>::infinity());
 #		endif
 	}
 
 	GLM_FUNC_QUALIFIER double prevFloat(double x)
 	{
 #		if GLM_HAS_CXX11_STL
-			return std::nextafter(x, std::numeric_limits<double>::min());
+			return std::nextafter(x, -std::numeric_limits<double>::infinity());
 #		elif((GLM_COMPILER & GLM_COMPILER_VC) || ((GLM_COMPILER & GLM_COMPILER_INTEL) && (GLM_PLATFORM & GLM_PLATFORM_WINDOWS)))
-			return _nextafter(x, DBL_MIN);
+			return _nextafter(x, -std::numeric_limits<double>::infinity());
 #		elif(GLM_PLATFORM & GLM_PLATFORM_ANDROID)
-			return __builtin_nextafter(x, DBL_MIN);
+			return __builtin_nextafter(x, -std::numeric_limits<double>::infinity());
 #		else
-			return nextafter(x, DBL_MIN);
+			return nextafter(x, -std::numeric_limits<double>::infinity());
 #		endif
 	}
 
